@@ -180,6 +180,67 @@ class RejectingUniverse(Universe):
             self.remove_vertex(vert)
 
 
+class SanctuaryUniverse(Universe):
+    """
+    A universe that will not let some members go: its remove_vertex override
+    lets the base class remove the vertex and then, for a vertex tagged 3,
+    admits it again through the public call (re-entrant user code).  Net
+    effect of any removal of such a vertex, from either side: it is a member
+    again, last in line, and lists the universe.
+    """
+
+    def remove_vertex(self, vert):
+        super().remove_vertex(vert)
+        if getattr(vert, "sim_tag", None) == 3:
+            self.add_vertex(vert)
+
+
+class JournalVertex(Vertex):
+    """
+    A vertex that keeps a journal of the universes it joins.  The journal is
+    assigned after super().__init__(), as subclasses usually do, so the
+    override must not be reached on a half-built object.
+    """
+
+    def __init__(self, *, links=None, uid=None, attributes=None, universes=None):
+        super().__init__(links=links, uid=uid, attributes=attributes, universes=universes)
+        self._journal = []
+
+    def add_to_universe(self, universe):
+        self._journal.append("join")
+        super().add_to_universe(universe)
+
+
+class PortVertex(Vertex):
+    """
+    A vertex with room for two links: its add_to_link override refuses a third
+    by raising -- in the middle of whatever library call wanted to attach it
+    (an edge constructor has recorded both ends by then).
+    """
+
+    def add_to_link(self, link):
+        if len(self.links) >= 2 and not any(lnk is link for lnk in self.links):
+            from egsim.seams import InjectedFault
+
+            raise InjectedFault("port full")
+        super().add_to_link(link)
+
+
+class BrittleEdge(UnDirectedEdge):
+    """
+    An edge that will not take a vertex tagged 4 once it is built: its
+    add_vertex override raises before anything is recorded on the edge -- in the
+    middle of whatever call on the vertex side wanted to attach the two.
+    """
+
+    def add_vertex(self, new):
+        if len(self.vertices) >= 2 and getattr(new, "sim_tag", None) == 4:
+            from egsim.seams import InjectedFault
+
+            raise InjectedFault("edge will not take this vertex")
+        super().add_vertex(new)
+
+
 class SubDirected(DirectedEdge):
     """A subclass of DirectedEdge."""
 
@@ -284,6 +345,8 @@ VERTEX_CLASSES = {
     "UnhashableVertex": UnhashableVertex,
     "PriorityVertex": PriorityVertex,
     "MigratingVertex": MigratingVertex,
+    "JournalVertex": JournalVertex,
+    "PortVertex": PortVertex,
 }
 UNIVERSE_CLASSES = {
     "Universe": Universe,
@@ -294,6 +357,7 @@ UNIVERSE_CLASSES = {
     "UnhashableUniverse": UnhashableUniverse,
     "ClusterUniverse": ClusterUniverse,
     "RaisingUniverse": RaisingUniverse,
+    "SanctuaryUniverse": SanctuaryUniverse,
 }
 EDGE_CLASSES = {
     "DirectedEdge": DirectedEdge,
@@ -307,6 +371,7 @@ EDGE_CLASSES = {
     "JoiningEdge": JoiningEdge,
     "BondEdge": BondEdge,
     "LabelledEdge": LabelledEdge,
+    "BrittleEdge": BrittleEdge,
 }
 ALL_CLASSES = dict(VERTEX_CLASSES)
 ALL_CLASSES.update(UNIVERSE_CLASSES)
